@@ -90,13 +90,13 @@ Proof.
     destruct (run_body P W _ (ri_deny ri) site t e (set_all (p_set_in P) e a)) as [[o ev] a']; reflexivity.
 Qed.
 
-Lemma main_handler_pm_eq ri st : main_handler_pm P W ri st = main_handler P W ri st.
+Lemma main_handler_pm_eq ri second st : main_handler_pm P W ri second st = main_handler P W ri second st.
 Proof.
   unfold main_handler_pm, main_handler. destruct (ri_root_raise ri); [reflexivity|]. cbv zeta.
   change (@None N) with (pme_of false id_h_pme). rewrite comps_loop_eq. unfold call_view.
-  destruct (call_loop (ri_req ri)
-              (find_views (w_reg W) view_classifier (q_req_sro (ri_req ri)) (q_ctx_sro (ri_req ri))
-                 (q_view_name (ri_req ri))) false) as [t| |].
+  destruct (call_loop (req_of ri second)
+              (find_views (w_reg W) view_classifier (q_req_sro (req_of ri second)) (q_ctx_sro (req_of ri second))
+                 (q_view_name (req_of ri second))) false) as [t| |].
   - destruct (run_body P W true (ri_deny ri) site_main t ctx_resource (st_attrs st)) as [[o ev] a']. reflexivity.
   - simpl. rewrite app_nil_r. destruct st; reflexivity.
   - simpl. rewrite app_nil_r. destruct st; reflexivity.
@@ -106,13 +106,14 @@ Qed.
 Theorem run_request_pm_eq ri : run_request_pm P W ri = run_request P W ri.
 Proof.
   unfold run_request_pm, run_request_g, run_request.
-  assert (Hu : forall st, under_tween_g W ri (main_handler_pm P W ri) (iev_pm P W ri) st = under_tween P W ri st).
-  { intros st. unfold under_tween_g, under_tween. destruct (ri_under ri) as [|e|rr sec thn].
+  assert (Hu : forall st, under_tween_g W ri (main_handler_pm P W ri) (fun _ => iev_pm P W ri) st = under_tween P W ri st).
+  { intros st. unfold under_tween_g, under_tween. destruct (ri_under ri) as [|e| |rr sec via thn].
     - apply main_handler_pm_eq.
     - reflexivity.
-    - rewrite main_handler_pm_eq. destruct (main_handler P W ri st) as [[r|e] st1]; [reflexivity|].
+    - rewrite main_handler_pm_eq. destruct (main_handler P W ri false st) as [o st1]. apply main_handler_pm_eq.
+    - rewrite main_handler_pm_eq. destruct (main_handler P W ri false st) as [[r|e] st1]; [reflexivity|].
       destruct (isa W cn_Exception e); [|reflexivity]. rewrite iev_pm_eq. reflexivity. }
-  assert (He : forall o st, excview_tween_g P W (iev_pm P W ri) o st = excview_tween P W ri o st).
+  assert (He : forall o st, excview_tween_g P W (fun _ => iev_pm P W ri) o st = excview_tween P W ri o st).
   { intros o st. unfold excview_tween_g, excview_tween. destruct o as [r|e]; [reflexivity|].
     destruct (isa W (p_tween_catches P) e); [|reflexivity]. rewrite iev_pm_eq. reflexivity. }
   rewrite Hu. destruct (under_tween P W ri _) as [o1 st1]. rewrite He. reflexivity.
@@ -155,7 +156,7 @@ Definition pm_W : world :=
           (bodies_of spec_params pm_nm pm_decls) pm_excs.
 Definition pm_ri : rinfo :=
   mkRI (mkReq rm_get [] [] false None false [47%N] [([], [])] true [] [] [] [1; 0]%N [12; 0]%N [])
-       [1; 0]%N [1; 0]%N false None UPass None.
+       None [1; 0]%N [1; 0]%N false None UPass None.
 
 Example search_goes_on :
   run_request_pm spec_params pm_W pm_ri =
